@@ -23,6 +23,7 @@ import (
 	"io"
 	"math/big"
 	"os"
+	"runtime/debug"
 	"strconv"
 	"testing"
 	"testing/synctest"
@@ -77,7 +78,7 @@ type outcome struct {
 	stalledAt bool          // the reader was blocked (had not given up) at that moment
 }
 
-func runOne(t *testing.T, prop string, verifSeed uint64, idx int, src map[string][]kernel.Choice) *kernel.Result {
+func runOne(t *testing.T, prop string, verifSeed uint64, idx int, src map[string][]kernel.Choice) (out *kernel.Result) {
 	res := &kernel.Result{World: "stall", Prop: prop, Variant: "asm-go1.26", VerifSeed: verifSeed, Idx: idx}
 	res.RunSeed = kernel.RunSeed(verifSeed, "stall", idx)
 	var tp *kernel.Tape
@@ -88,6 +89,22 @@ func runOne(t *testing.T, prop string, verifSeed uint64, idx int, src map[string
 	}
 	run := kernel.NewRun(tp, res, true)
 	start := time.Now()
+	defer func() {
+		// a panic outside the signing call itself (key import, conversion):
+		// raised in the library on valid arguments it is a verdict, raised
+		// here it is a harness defect
+		if e := recover(); e != nil {
+			stack := string(debug.Stack())
+			if fn, inLib := kernel.PanicOrigin(stack); inLib {
+				run.Violate(prop, "library-panic", fn, 0, "a library call with valid arguments panicked: %v (raised in %s)\n%s", e, fn, stack)
+			} else {
+				run.Violate("HARNESS", "harness-panic", "stall", 0, "%v\n%s", e, stack)
+			}
+			run.Finish()
+			res.Tape = tp.Record()
+			out = res
+		}
+	}()
 
 	// every draw happens outside the bubble
 	d := new(big.Int).Add(big.NewInt(1), new(big.Int).Mod(ref.OS2IP(tp.Bytes("fixture", "key", 32)), new(big.Int).Sub(ref.N, big.NewInt(1))))
